@@ -42,9 +42,11 @@ ASSUMPTIONS = ['IEEE overflow is outside the property: non-finite output of the 
                'every operation is exact, |impl-model| <= 1e-9*scale+1e-12 elsewhere',
                "ODL's eps fudges (lam*(1-1e-14), ||x||*(1+1e-14)) are model parameters; theorems are "
                'stated for eps = 0',
-               'Lambert-W (KL cross entropy), SVD (nuclear norm), proximal_composition: no executable '
-               'model, oracle only; Huber on product spaces, group L1-L2, weighted simplex: executed '
-               'model without an optimality theorem',
+               'Lambert-W (KL cross entropy), SVD (nuclear norm): no executable model, oracle only; '
+               'vector Huber, group L1-L2 (pwNorm), array-weighted simplex (simplexTauW), separable '
+               'sums and the Fn tree evaluator: executed and compared, no optimality theorem',
+               'malformed stream (negative left scalar, negative quadratic coefficient, step kinds the '
+               'proximal does not take): compared with the model\'s err:/unsupported outcome, not judged',
                'the oracle probes are a test: optimality for ALL z is what the Lean theorems state '
                'about the modelled formulas']
 
